@@ -28,3 +28,23 @@ CHECKS["C06"] = {
   "note": "Fitting writes only (C11 covers misfits).",
   "technique": "property-based testing: metamorphic handle-vs-view comparison over generated types and write sequences",
 }
+CHECKS["C03"] = {
+  "text": "Exploration: " + _GRAMMAR + "; the target is built into a hole between two live pattern-filled neighbours of a poisoned, traced buffer (freed hole / explicit offset / end), then 0..6 fitting assignments (leaf, whole nested struct/array, reference rebinding, growth) through handles/views. Raw-byte oracle: construction and every assignment change only bytes inside regions handed out by allocate() for this object (or during that assignment); reported sizes equal the extent; nesting and sibling disjointness from the independent layout model; reference targets in other allocated regions.",
+  "note": "allocate/free/_new_buffer are wrapped on the buffer instance by the harness (no repo hook). Fitting assignments only.",
+  "technique": "property-based testing: generated types/placements/assignment sequences, byte-diff oracle against traced allocations",
+}
+CHECKS["C09"] = {
+  "text": "Exploration: generated types with raised reference weight x values x placements x destination {same buffer, other buffer, buffer of another context, _context= only, default} x later writes on either side. Oracle: copy equals model and original, extents disjoint, references of the copy (decoded by the independent layout model) resolve inside the copy's own buffer to allocated regions - the same referent when the buffer is shared, a duplicate otherwise - and writes to non-reference parts never show through.",
+  "note": "Roots are struct/array/string objects; a stand-alone UnionRef is built from member objects, not from another UnionRef object.",
+  "technique": "property-based testing: generated types/destinations/write sequences against a value model and a layout decoder",
+}
+CHECKS["C10"] = {
+  "text": "Exploration: model-based histories (<=12 steps quick, <=40 thorough) of {set leaf, set whole nested struct/array of equal size, rebind reference, bind null, grow buffer} on generated objects, each step through the handle chain, a rebuilt view chain or a mix; after every step the full re-read (handle and view) equals the nested-python-value model, sizes/shapes/strides/offsets outside the assigned element are unchanged and a neighbour object reads the same.",
+  "note": "Fitting assignments only (same structure, strings not longer than the one replaced); the assigned element may be re-laid out inside its own extent.",
+  "technique": "model-based property testing: generated operation histories against a nested value model",
+}
+CHECKS["C11"] = {
+  "text": "Exploration: generated objects with a live neighbour directly behind them x one misuse per case from the nine classes of the statement, parameterised over every element position; oracle: the operation raises, every live object reads the same, no byte inside a previously live extent changes ('accepted silently' and 'raised but modified' are separate clauses).",
+  "note": "Misfits are chosen unambiguous (a string longer than the slot-rounded space reserved for it; an item longer than its whole array). Python-style wrap-around of negative in-range indices on arrays of dynamic items is accepted.",
+  "technique": "property-based testing: generated objects x generated invalid operations, exception + no-side-effect oracle",
+}
